@@ -2,6 +2,7 @@ import Firebolt.Properties.C01
 import Firebolt.Properties.ExecCompose
 import Firebolt.Properties.ExecNet
 import Firebolt.Properties.ExecLive
+import Firebolt.Properties.ExecRank
 /-!
 # C03 — Clean shutdown drains the whole pipeline and orders node lifecycles
 The invariants under every interleaving are proved on the node component model (`Properties/ExecCascade.lean`, imported by
@@ -115,5 +116,19 @@ theorem tree_drain_cannot_get_stuck (cfg : Path → Cfg) (caps : Path → Nat) (
     (hsrc : (N.st []).inpClosed = true) :
     (∀ p, inTree cfg p → Terminal (cfg p) (N.st p)) ∨ ∃ p a, nonEnv a = true ∧ (gstep N p a).isSome = true :=
   deadlock_free cfg caps disc sched N d hr hd hW hcap hsrc
+
+
+open Firebolt.Exec in
+/-- **the drain terminates under every scheduler**: once the source has finished, any continuation by steps of the tree's
+workers and completions has at most `Phi N d` steps (the work still ahead of the tree, a number computed from the state),
+and a continuation after which nothing can move has left every node terminal -/
+theorem tree_drain_terminates (cfg : Path → Cfg) (caps : Path → Nat) (disc : Path → Bool) (d : Nat)
+    (pre cont : List (Path × Act)) (N N' : Net)
+    (hpre : grun (ginit cfg caps disc) pre = some N) (hcont : grun N cont = some N')
+    (hd : FiniteDepth cfg d) (hW : ∀ p, 0 < (cfg p).W) (hcap : ∀ p, 1 ≤ caps p)
+    (hsrc : (N.st []).inpClosed = true) (hs : TreeSched cfg cont) :
+    cont.length ≤ Phi N d ∧
+    ((∀ p a, nonEnv a = true → gstep N' p a = none) → ∀ p, inTree cfg p → Terminal (cfg p) (N'.st p)) :=
+  drain_terminates cfg caps disc d pre cont N N' hpre hcont hd hW hcap hsrc hs
 
 end Firebolt.C03
